@@ -96,6 +96,9 @@ G0 == [role |-> "", ver |-> "", idw |-> 16,
        peerRM |-> 0, ownRM |-> 0, peerTAM |-> 0, ownTAM |-> 0, peerMPS |-> NoLimit, ownMPS |-> NoLimit,
        rx |-> {}, aliasIn |-> {},         \* [a, t]: the receiver's table of what we sent / of what we received
        ka |-> 0, ska |-> -1, user |-> -1, respTimeout |-> 0,
+       echo |-> <<>>,                     \* shape of the last send if it was refused (error only, nothing sent or delivered): keeps the
+                                          \* state after a refused call distinct for ONE step, so that the transition
+                                          \* cover also contains "refused call, then X" histories
        skew |-> 0,                        \* observed - expected vacancy after a reported C12a violation (re-synchronisation)
        newSess |-> FALSE,                 \* a new session has started on the current connection (C10)
        shadow |-> "none"]
@@ -246,6 +249,7 @@ GhostStep(g, prev, r) ==
      !.user = IF op = "set_interval" THEN r.call.val ELSE @,
      !.respTimeout = IF op = "set_resp_timeout" THEN r.call.val ELSE @,
      !.newSess = IF isConn THEN cp.clean ELSE IF ckOk /\ ~ck.sp THEN TRUE ELSE IF op \in {"closed", "crash"} THEN FALSE ELSE @,
+     !.echo = IF op = "send" /\ HasErr(out) /\ Sends(out) = <<>> THEN << p.kind, p.qos, p.topic, p.alias >> ELSE <<>>,
      !.skew = IF isConn THEN 0 ELSE @,
      !.shadow = r.shadow]
 
@@ -403,7 +407,7 @@ ViolC12(g, prev, r, g2) ==
   \cup (IF IsSend(r, {"publish"}) /\ p.qos > 0 /\ ~r.panic /\ g.ver = "v50" /\ g.conn = "connected" /\ g.peerRM > 0
            /\ (\A n \in Counts(g.inflight) : n >= g.peerRM) /\ ~HasErr(r.out)
         THEN {"C12b-no-refusal-at-limit"} ELSE {})
-  \cup (IF IsRecv(r, {"publish"}) /\ r.call.flag /\ p.qos > 0 /\ ~r.panic /\ g.ver = "v50" /\ g.conn = "connected"
+  \cup (IF IsRecv(r, {"publish"}) /\ r.call.flag /\ p.qos > 0 /\ p.pid # 0 /\ ~r.panic /\ g.ver = "v50" /\ g.conn = "connected"
            /\ g.ownRM > 0 /\ p.size <= g.ownMPS /\ p.pid \notin g.inUn /\ Cardinality(g.inUn) >= g.ownRM
            /\ (RecvsK(r.out, {"publish"}) # <<>>
                \/ (g.peerMPS >= 3 /\ ~(\E i \in DOMAIN r.out : r.out[i].ev = "send" /\ r.out[i].pkt.kind = "disconnect" /\ r.out[i].pkt.rc = 147)))
